@@ -379,6 +379,12 @@ def h_sym(ctx, obs, tr, d, N, F, types, cell, ppp, arg=None, fixed=0, params=Non
         ctx.assume(O.gt(n2, 0) if sym else n2 > 1e-12)
     if obs in ("gr", "cut", "nn", "boo2d", "boo3d", "tetra", "hessian") or (obs == "relax" and P.get("mode") == "x"):
         exclude_ties(ctx, sy, ppp)
+    if obs == "relax" and P.get("mode") == "x":
+        # wrapped mode: the displacements of one particle between two frames are minimum-imaged; away from ties, as above
+        for f0 in range(F):
+            for f1 in range(f0 + 1, F):
+                for i in range(N):
+                    C.min_image(ctx, [sy["pos"][f1][i][a] - sy["pos"][f0][i][a] for a in range(d)], sy["rows"], ppp)
     if obs == "boo3d":
         for f in range(F):
             for i, lst in enumerate(P["topo"]):
@@ -461,7 +467,7 @@ def cfg(tier, seed):
     # ---- relaxation functions
     rel = dict(d=2, N=2, F=3, types=[1, 2])
     for tr, arg, mode, cell, ppp in (("translate", None, "xu", "o", opn), ("relabel", [1, 0], "xu", "o", opn), ("axes", [1, 0], "xu", "o", opn),
-                                     ("image", None, "x", "o", per)):
+                                     ("image", None, "x", "o", per), ("image", None, "x", "t-", per)):
         out.append(dict(obs="relax", tr=tr, cell=cell, ppp=ppp, arg=arg, params=dict(mode=mode), **rel))
     # ---- shape descriptors, participation ratio
     for tr, arg in (("translate", None), ("rotate", None), ("relabel", [2, 0, 1])):
